@@ -30,7 +30,8 @@ Shapes == {
   <<"ident_empty", Obj(<<>>)>>,                                            \* e
   <<"call", Obj(<< <<"emits", UE>> >>)>>,                                  \* mk()
   <<"nested", Obj(<<>>)>>,                                                 \* { components: { Row: defineComponent((p: { b?: string }) => () => null) } }
-  <<"spread_args", Obj(<< <<"props", UP>> >>)>>,                           \* defineComponent(...args)
+  <<"spread_args", Obj(<< <<"props", UP>> >>)>>,
+  <<"spread_args_one", Null>>,                                             \* defineComponent(...args1) with args1 = [setup]                           \* defineComponent(...args)
   <<"nonfn_first", Null>>                                                  \* defineComponent({ setup() {…}, props: ['u'] })
 }
 Provenances == {"vue_named", "vue_alias", "vue_namespace", "local_function", "shadowed_param", "other_module", "alias_plus_other", "alias_plus_local"}
